@@ -2,6 +2,7 @@ package checks
 
 import (
 	"fmt"
+	"math/bits"
 	"os"
 	"path/filepath"
 	"regexp"
@@ -29,7 +30,10 @@ type c20Case struct {
 }
 
 // what a selected gap receives: a bare LF, LF after a filler character, a blank line, CRLF, LF followed by indentation
-var c20GapStyles = []string{"\n", " \n", "\n\n", "\r\n", "\n  "}
+var c20GapStyles = []string{"\n", " \n", "\n\n", "\r\n", "\n  ", "\r", "\r\r\n", "\n\r", "\t\n\t"}
+
+// styles from this index on are "secondary": used for layouts with at most two filled gaps and for all-gaps
+const c20PrimaryStyles = 5
 
 var lineRe = regexp.MustCompile(`line (\d+)`)
 
@@ -170,7 +174,7 @@ func runC20(c *ev.Ctx) {
 	if c.Thorough() {
 		nodes, maxGapsFull = 5, 12
 	}
-	c.Rule(fmt.Sprintf("skeletons = every tree with <= %d nodes, depth <= 3 over leaves {1,\"s\",true}, keys {a,b}; injections at every applicable token: unexpected character where a key must start (after '{' and after ','), wrong closer after a comma, unexpected character between key and colon, unexpected character after a nested value in an object, invalid literal (tru/nul/1x/-) terminated by its following delimiter; newline layouts = every subset of token gaps is filled when the document has <= %d gaps (else every layout with <= 3 filled gaps plus all-gaps), each in 5 filling styles (LF, SP LF, LF LF, CR LF, LF SP SP), x 4 prefixes before the root bracket, x optional raw LF inside a preceding string; ParseFile reads the object-rooted texts from a temp file for the single-LF layouts. Expected line = 1 + number of LF bytes before the detection character in the whole input. Non-trivial = distinct text whose expected line is > 1.", nodes, maxGapsFull))
+	c.Rule(fmt.Sprintf("skeletons = every tree with <= %d nodes, depth <= 3 over leaves {1,\"s\",true}, keys {a,b}; injections at every applicable token: unexpected character where a key must start (after '{' and after ','), wrong closer after a comma, unexpected character between key and colon, unexpected character after a nested value in an object, invalid literal (tru/nul/1x/-) terminated by its following delimiter; newline layouts = every subset of token gaps is filled when the document has <= %d gaps (else every layout with <= 3 filled gaps plus all-gaps), each in 5 filling styles (LF, SP LF, LF LF, CR LF, LF SP SP; layouts with <= 2 filled gaps and all-gaps also in 4 more: lone CR, CR CR LF, LF CR, TAB LF TAB), x 4 prefixes before the root bracket, x optional raw LF inside a preceding string; ParseFile reads the object-rooted texts from a temp file for the layouts with at most one filled gap (all styles but LF LF) and for all-gaps (every style). Expected line = 1 + number of LF bytes before the detection character in the whole input. Non-trivial = distinct text whose expected line is > 1.", nodes, maxGapsFull))
 	c.Assume("errors whose message cites no line are outside the statement; their number is reported as errors_without_line")
 	dir, err := os.MkdirTemp("/verif/.cache/tmp", "c20files")
 	if err != nil {
@@ -214,6 +218,9 @@ func runC20(c *ev.Ctx) {
 								if m == 0 && st > 0 {
 									break // no gap selected: the style is irrelevant
 								}
+								if st >= c20PrimaryStyles && bits.OnesCount32(m) > 2 && m != 1<<uint(g)-1 {
+									break
+								}
 								if !emit(c20Case{Toks: toks, Detect: detect, Root: v.K, Kind: kind, Prefix: pre, Mask: m, Inner: in, Style: st}) {
 									ok = false
 									return
@@ -248,7 +255,7 @@ func runC20(c *ev.Ctx) {
 			c.Violate(ev.Violation{Sig: sig, Msg: msg, Witness: map[string]interface{}{"text": text, "detect_offset": off, "injection": k.Kind}}, func() string { _, s, _ := c20One(k, ""); return s })
 		}
 		// ParseFile for object-rooted texts, on layouts with at most one LF (file I/O is slow)
-		if k.Root == spec.Obj && k.Mask&(k.Mask-1) == 0 && !k.Inner && k.Style <= 1 {
+		if k.Root == spec.Obj && !k.Inner && (k.Mask&(k.Mask-1) == 0 && (k.Style <= 1 || k.Style >= 3) || k.Mask == 1<<uint(len(k.Toks)+1)-1) {
 			c.Eval(1)
 			path := filepath.Join(dir, fmt.Sprintf("w%d.json", w))
 			if msg, sig, _ := c20One(k, path); msg != "" {
